@@ -29,3 +29,11 @@ func (q *VerifPollQueue) ReadyCap() int { return cap(q.pq.ready) }
 
 // VerifSetYieldHandler installs the handler called at every verifhook.Yield point.
 func VerifSetYieldHandler(fn func(point string)) { verifhook.SetHandler(fn) }
+
+// VerifQueued returns a copy of the packets waiting in the transport's poll queue, without
+// removing them (QueuedPackets removes them).
+func (t *ServerTransport) VerifQueued() []*parser.Packet {
+	t.pq.mu.Lock()
+	defer t.pq.mu.Unlock()
+	return append([]*parser.Packet(nil), t.pq.packets...)
+}
